@@ -7,28 +7,43 @@ from common import sh2
 LEVEL = "proof"
 MANIFEST = {
     "technique": "Coq proof over a hand-written Gallina model of mp4.DecodeFile's box loop / File.AddChild / "
-                 "startSegmentIfNeeded / File.Encode (segment mode) / UpdateSidx + differential correspondence "
-                 "(extracted OCaml vs Go) + a search that checks partition, positions, re-encoding and sidx tiling "
-                 "on synthesized files against the harness's own top-level box scanner",
+                 "startSegmentIfNeeded / File.Encode (segment mode, box and byte level incl. Fragment.SetTrunDataOffsets) / "
+                 "UpdateSidx, composed with C02's reader's view of a byte stream (scan) + differential correspondence "
+                 "(extracted OCaml vs Go) + a search that checks partition, positions, byte-identical re-encoding and sidx "
+                 "tiling on synthesized files against the harness's own top-level box scanner and sidx parser",
     "level_text": "Theorems (coq/c12/C12Theorems.v), for ALL top-level box sequences and decode flags accepted by the "
                   "model: the fragments of the segments hold exactly the emsg/moof/mdat boxes of the input in order "
                   "(C12_partition, C12_partition_fragmented), every fragment is emsg* [moof [mdat] emsg*] (C12_fragment_shape), "
                   "the (StartPos, styp) list of the segments equals the declarative boundary rules: styp, or first emsg/moof, or "
                   "the position designated by top-level sidx references / tfra entry / every moof (C12_boundaries, "
                   "C12_boundary_rules), segment-mode encoding emits init, top-level sidx, per segment styp/sidx/fragment children "
-                  "in order, then mfra, its media sub-sequence being the input's (C12_segment_mode_encode), and after UpdateSidx "
+                  "in order, then mfra (C12_segment_mode_encode); for every layout [ftyp] moov sidx* (styp sidx* | emsg | moof | "
+                  "mdat)* [mfra] it writes exactly the input boxes in input order (C12_reencode_boxes) and, when each box re-encodes "
+                  "to its own bytes (C01's per-box claim, a boolean hypothesis), each starts with a correct size field and the data "
+                  "offset of a single-trun fragment is what SetTrunDataOffsets writes, the output byte stream IS the input stream, "
+                  "which C02's scan splits into exactly these boxes (C12_reencode_identical); every excluded layout class is refuted by "
+                  "a witness (C12_reencode_refuted: free box, sidx behind a fragment, mfra not last, ftyp behind moov, two moov, sidx "
+                  "before moov, non-fragmented moov, leading mdat; C12_reencode_doff_refuted: data offset rewritten = known finding "
+                  "C12-K1); after UpdateSidx "
                   "reference i starts at the first byte of segment i, the references end at the end of the media, every "
                   "referenced_size IS its segment's size, fits 31 bits and reads back from the written word as (type 0, size), "
                   "every duration IS the reference track's summed sample durations over all trafs of all fragments of the segment "
                   "(any traf order, fragments without the track, empty truns) and fits 32 bits, reference_ID/timescale are the "
                   "reference track's - for segments of ANY size and duration (C12_sidx_tiles; the pre-85561e1 text wrapped "
                   "silently: C12_sidx_pinned_refuted); the reference track is the first video track in moov order, else the first "
-                  "audio track, else the first track (C12_reference_track). The model is tied to /repo on every run by running it "
+                  "audio track, else the first track (C12_reference_track). Explored only (search/correspondence, not proved): that "
+                  "the real boxes satisfy the per-box hypotheses (bytes compared on synthesized files), earliest_presentation_time "
+                  "(mirrors the code: first fragment only), tfra/further sidx boxes left stale by UpdateSidx, lazily decoded mdat. "
+                  "The model is tied to /repo on every run by running it "
                   "(extracted) against mp4.DecodeFile/Encode/UpdateSidx on synthesized files, including multi-track files with "
-                  "arbitrary track ids and traf orders and lazily decoded files with virtual mdat boxes of 2-8 GiB.",
+                  "arbitrary track ids and traf orders, data offsets that skip payload bytes (the model predicts the rewritten moof "
+                  "bytes), and lazily decoded files with virtual mdat boxes of 2-8 GiB.",
     "level_note": "Trusted: Coq kernel, extraction (ExtrOcamlBasic), the OCaml/Go glue, the abstraction of a top-level box "
-                  "to (kind, Size(), the fields the assembly reads). Byte-identity of a re-encoded box is C01/C02's claim; "
-                  "here it is observed by the harness (bytes compared), not proved. Box-internal decoding is not modelled.",
+                  "to (kind, Size(), the fields the assembly reads, its bytes, the position of a single trun's data_offset). "
+                  "Byte-identity of one re-encoded box is C01's claim and Size() = bytes written C02's: hypotheses of "
+                  "C12_reencode_identical, observed by the harness (bytes compared), not proved here. Read-only imports: "
+                  "coq/c02 C02AggModel/C02AggFragProofs/C02AggScanProofs (box_ok, all_ok, scan, scan_all_ok), coq/c05 "
+                  "C05CodecModel (be32). Box-internal decoding is not modelled.",
 }
 
 
@@ -44,9 +59,10 @@ def build(ctx):
 
 def run(ctx):
     ctx.cov["trusted_base"] = common.TRUSTED_BASE_COMMON + [
-        "model: coq/c12/C12Model.v + C12Sidx.v are hand transcriptions of mp4/file.go (DecodeFile loop, AddChild, "
+        "model: coq/c12/C12Model.v + C12Sidx.v + C12Bytes.v are hand transcriptions of mp4/file.go (DecodeFile loop, AddChild, "
         "startSegmentIfNeeded, findAndReadMfra, Encode, UpdateSidx, findSegmentData, fillSidx, insertSidx), "
-        "mp4/mediasegment.go (AddSidx, AddFragment, Size, Encode, FirstBox), mp4/fragment.go (AddChild, Encode)",
+        "mp4/mediasegment.go (AddSidx, AddFragment, Size, Encode, FirstBox), mp4/fragment.go (AddChild, Encode, SetTrunDataOffsets for decoded "
+        "fragments), mp4/sidx.go (the reference word of EncodeSW / DecodeSidxSR)",
         "spec: coq/c12/C12Spec.v (frag_media, sidx_starts, tiling predicates; written by hand)",
         "a top-level box is abstracted to kind + Size() + the fields read by the assembly; the harness's own "
         "scanner (size/type headers) supplies positions and sizes",
@@ -54,7 +70,8 @@ def run(ctx):
     ctx.assumptions += [
         "each top-level box is individually well-formed (decodes; Size() equals its encoded length): C01/C02/C04 territory",
         "moov has a complete trak/mdia/minf/stbl/stts chain",
-        "the reader is an io.ReadSeeker (bytes.Reader); mdat is read eagerly (DecModeNormal)",
+        "the reader is an io.ReadSeeker; mdat is read eagerly (DecModeNormal) except in the huge-file stream (DecModeLazyMdat "
+        "through a sparse reader; UpdateSidx only, never encoded as a whole)",
     ]
     ctx.notes["observations_not_claimed_as_violations"] = [
         "an emsg that follows a complete fragment (moof mdat) in the same segment is appended to that preceding fragment "
@@ -82,7 +99,7 @@ def run(ctx):
     kinds = {}
     for l in lines:
         p = l.split("\t")
-        k = p[0] + ":" + p[1].split("-")[0] + ":" + (p[4] if p[0] == "A" else p[5].split(";")[0][:12])
+        k = p[0] + ":" + p[1].split("-")[0] + ":" + (p[4] if p[0] == "A" else p[5].split(";")[0].split(":")[0][:12])
         kinds[k] = kinds.get(k, 0) + 1
     ctx.notes["correspondence"] = {
         "cases": len(lines), "mismatches": len(mism), "distinct_cases": distinct,
@@ -126,8 +143,14 @@ def run(ctx):
     ctx.cov["rule"] = ("corr: every sequence over {styp,moov,sidx,emsg,moof,mdat,free} up to length %d x 4 flag combinations "
                        "(+ mfra/tfra variants under the ISM flag), structured files 1-3 segments x 1-2 fragments x every "
                        "delimiter kind x flags exhaustively, then %d random (half structured 1-5 x 1-4 x 1-3 tracks, half odd "
-                       "layouts with perturbed sidx/tfra); distinct = distinct case lines; search: partition vs intended "
-                       "segmentation, StartPos vs own scanner, re-encode bytes, UpdateSidx tiling and durations" % (exh, n))
+                       "layouts with perturbed sidx/tfra), then n/3 multi-track files (1-4 tracks, ids from {1..9, 65536, 2^32-2}, "
+                       "random handler kinds / timescales / missing trex, trafs in random order, tracks missing from fragments, 0-2 "
+                       "truns of 0-3 samples, durations up to 2^32-1, duplicate trafs; half of them with virtual mdat boxes making a "
+                       "segment exactly 2^31-2 .. 2^33+5 bytes, B lines), then n/6 byte-level re-encodings (R lines, a third with "
+                       "skewed data offsets); distinct = distinct case lines; search: partition vs intended "
+                       "segmentation, StartPos vs own scanner, re-encode bytes, UpdateSidx tiling and durations; n/2 multi-track "
+                       "files incl. huge ones: UpdateSidx must refuse >= 2^31 bytes / >= 2^32 ticks and otherwise write the true "
+                       "sizes and durations; skewed data offsets (known finding C12-K1)" % (exh, n))
 
 
 def run_add_sidx(ctx, exe):
